@@ -31,7 +31,9 @@
 (*     position), one                                                      *)
 (*     value node per argument optionally lifted into a variable (supplied,*)
 (*     default only, default and supplied), distinct sentinels in every    *)
-(*     secret leaf; named and anonymous operations, aliases.               *)
+(*     secret leaf; named and anonymous operations, aliases on the target  *)
+(*     field and on its ancestor fields (response keys never matter: every *)
+(*     walk below resolves a field by its NAME).                           *)
 (* Sentinels: leaf i is the string "zq<i>z" or the integer 9100+i; the leaf*)
 (* carries its number in the field sid so that TLC can build its code      *)
 (* points (TLC cannot look inside strings).                                *)
@@ -45,7 +47,8 @@ CONSTANTS MaxSteps,      \* longest chain of steps from the operation root to th
           ShapeBudget,   \* a target below a chain of L steps gets argument shapes of depth <= max(0, ShapeBudget - L)
           MaxListLen,    \* 1 or 2: list values have one element, or one and two elements
           VarModes,      \* subset of {"supplied", "default", "both"}
-          Styles         \* subset of {"anon", "named", "anonAlias", "namedAlias"}
+          Styles,        \* subset of {"anon", "named", "anonAlias", "namedAlias"} (alias = on the target field)
+          StepAliases    \* subset of {"none", "fresh", "sibling"}: how the ancestor fields of a chain are selected
 VARIABLE g
 
 ----------------------------------------------------------------------------
@@ -305,10 +308,16 @@ FieldNode(n, al, args, sels) == [k |-> "field", name |-> n, alias |-> al, args |
 \* type conditions that may be spread inside static type t (5.5.2.3); operation roots only take themselves
 Conds(t) == IF t \in {TS.query, TS.mutation, TS.subscription} THEN {t}
             ELSE {x \in Types : Composite(x) /\ Possible(x) \cap Possible(t) # {} /\ x \notin {TS.query, TS.mutation, TS.subscription}}
+\* 3.3 / 5.3.3: an alias only renames the response key; the type of what is below an ancestor field is that of the
+\* field NAMED there.  Ancestor fields are selected plainly, under a fresh alias ("anc"), and under an alias that
+\* is the name of ANOTHER field of the same parent type (whose type and arguments differ).
+SiblingOf(t, f) == LET S == FieldsOf(t) \ {f} IN IF S = {} THEN "" ELSE CHOOSE h \in S : TRUE
+StepAliasOf(kind, t, f) == CASE kind = "fresh" -> "anc" [] kind = "sibling" -> SiblingOf(t, f) [] OTHER -> ""
 StepsFrom(t) ==
-  {[k |-> "field", name |-> f, on |-> ""] : f \in {h \in FieldsOf(t) : Composite(NamedOf(FieldDef(t, h).ty)) /\ ArgsOf(t, h) = {}}}
-  \cup {[k |-> "inline", name |-> "", on |-> ""]}
-  \cup {[k |-> kk, name |-> "", on |-> x] : kk \in {"inline", "spread"}, x \in Conds(t)}
+  {[k |-> "field", name |-> f, on |-> "", alias |-> StepAliasOf(ak, t, f)] :
+     f \in {h \in FieldsOf(t) : Composite(NamedOf(FieldDef(t, h).ty)) /\ ArgsOf(t, h) = {}}, ak \in StepAliases}
+  \cup {[k |-> "inline", name |-> "", on |-> "", alias |-> ""]}
+  \cup {[k |-> kk, name |-> "", on |-> x, alias |-> ""] : kk \in {"inline", "spread"}, x \in Conds(t)}
 TypeAfter(t, st) == IF st.k = "field" THEN NamedOf(FieldDef(t, st.name).ty) ELSE IF st.on = "" THEN t ELSE st.on
 Targets(t) == {f \in FieldsOf(t) : ArgsOf(t, f) # {}}
 \* a union has no fields of its own, an inline fragment without condition below it is still a union
@@ -317,7 +326,7 @@ RECURSIVE Wrap(_, _, _, _)
 Wrap(steps, i, sels, frags) ==
   IF i = 0 THEN [sels |-> sels, frags |-> frags]
   ELSE LET st == steps[i] IN
-       CASE st.k = "field"  -> Wrap(steps, i - 1, <<FieldNode(st.name, "", <<>>, sels)>>, frags)
+       CASE st.k = "field"  -> Wrap(steps, i - 1, <<FieldNode(st.name, st.alias, <<>>, sels)>>, frags)
          [] st.k = "inline" -> Wrap(steps, i - 1, <<[k |-> "inline", on |-> st.on, dirs |-> <<>>, sels |-> sels]>>, frags)
          [] st.k = "spread" -> LET fname == "F" \o ToString(Len(frags) + 1) IN
                                Wrap(steps, i - 1, <<[k |-> "spread", name |-> fname, dirs |-> <<>>]>>,
